@@ -62,6 +62,10 @@ type Bounds struct {
 	in        map[*cfg.Block]FactSet
 	summaries func(callee *Func) *Summary
 	Obs       []*BoundOb
+	predDepth int
+	entry     FactSet // facts that hold on entry (analysis in the context of one call)
+	Caller    *Bounds // the analysis this one was started from (call context)
+	CallSite  *ast.CallExpr
 }
 
 // Summary of a callee: facts over its parameters that hold whenever it
@@ -708,6 +712,16 @@ func (b *Bounds) Term(e ast.Expr) *BTerm {
 			}
 			return mkTerm(&BTerm{K: TLen, Args: []*BTerm{a}, Typ: types.Typ[types.Int]})
 		}
+		// a module function that maps constants to constants by a switch
+		if len(x.Args) == 1 {
+			if tab := b.constFunc(x); tab != nil {
+				if bt := basicInt(info.TypeOf(x)); bt != nil {
+					if k := b.Term(x.Args[0]); k != nil && k.Typ != nil {
+						return mkTerm(&BTerm{K: TLookup, Tab: tab, Args: []*BTerm{k}, Typ: bt})
+					}
+				}
+			}
+		}
 		return nil
 	case *ast.UnaryExpr:
 		a := b.Term(x.X)
@@ -876,6 +890,144 @@ func (b *Bounds) constTable(e ast.Expr) *ConstTable {
 	return t
 }
 
+// constFunc recognises a call of a module function of the form
+//
+//	func f(k K) V { switch k { case c1, c2: return v1; …; default: return vd }; return vd }
+//
+// with constant cases and results, and returns it as a table.
+func (b *Bounds) constFunc(call *ast.CallExpr) *ConstTable {
+	fn, ok := Callee(b.info, call).(*types.Func)
+	if !ok {
+		return nil
+	}
+	cf := b.P.FuncOf(fn)
+	if cf == nil || cf.Decl == nil || cf.Body == nil {
+		return nil
+	}
+	if t, done := b.tables[fn]; done {
+		return t
+	}
+	b.tables[fn] = nil
+	ps := cf.Params()
+	sig := fn.Type().(*types.Signature)
+	if len(ps) != 1 || sig.Recv() != nil || sig.Results().Len() != 1 || basicInt(ps[0].Type()) == nil || basicInt(sig.Results().At(0).Type()) == nil {
+		return nil
+	}
+	info := cf.Info()
+	t := &ConstTable{Obj: fn, M: map[int64]int64{}}
+	haveDef := false
+	retConst := func(stmts []ast.Stmt) (int64, bool) {
+		if len(stmts) != 1 {
+			return 0, false
+		}
+		r, ok := stmts[0].(*ast.ReturnStmt)
+		if !ok || len(r.Results) != 1 {
+			return 0, false
+		}
+		return ConstInt(info, r.Results[0])
+	}
+	list := cf.Body.List
+	if len(list) == 0 || len(list) > 2 {
+		return nil
+	}
+	sw, ok := list[0].(*ast.SwitchStmt)
+	if !ok || sw.Init != nil || sw.Tag == nil || ObjOf(info, sw.Tag) != types.Object(ps[0]) {
+		return nil
+	}
+	for _, st := range sw.Body.List {
+		cc := st.(*ast.CaseClause)
+		v, ok := retConst(cc.Body)
+		if !ok {
+			return nil
+		}
+		if cc.List == nil {
+			t.Def, haveDef = v, true
+			continue
+		}
+		for _, e := range cc.List {
+			k, isC := ConstInt(info, e)
+			if !isC {
+				return nil
+			}
+			t.M[k] = v
+			t.Keys = append(t.Keys, k)
+		}
+	}
+	if len(list) == 2 {
+		v, ok := retConst(list[1:])
+		if !ok || haveDef {
+			return nil
+		}
+		t.Def, haveDef = v, true
+	}
+	if !haveDef {
+		return nil
+	}
+	b.tables[fn] = t
+	return t
+}
+
+// predicateFacts: cond is a call of a module function whose body is a single
+// `return <boolean expression>` over its receiver and parameters; the facts of
+// that expression are translated to the caller's terms.
+func (b *Bounds) predicateFacts(call *ast.CallExpr, val bool) ([]*BFact, []types.Object) {
+	fn, ok := Callee(b.info, call).(*types.Func)
+	if !ok {
+		return nil, nil
+	}
+	cf := b.P.FuncOf(fn)
+	if cf == nil || cf.Decl == nil || cf.Body == nil || cf == b.F || len(cf.Body.List) != 1 {
+		return nil, nil
+	}
+	ret, ok := cf.Body.List[0].(*ast.ReturnStmt)
+	if !ok || len(ret.Results) != 1 {
+		return nil, nil
+	}
+	if b.predDepth > 2 {
+		return nil, nil
+	}
+	cb := AnalyseBoundsWith(b.P, cf, b.summaries)
+	cb.predDepth = b.predDepth + 1
+	facts, _ := cb.condFacts(ret.Results[0], val)
+	cb.predDepth = 0
+	if len(facts) == 0 {
+		return nil, nil
+	}
+	sub := map[types.Object]*BTerm{}
+	for i, p := range cf.Params() {
+		if i < len(call.Args) {
+			if a := b.Term(call.Args[i]); a != nil {
+				sub[p] = a
+			}
+		}
+	}
+	if cf.Decl.Recv != nil {
+		if sel, ok := ast.Unparen(call.Fun).(*ast.SelectorExpr); ok {
+			for _, fl := range cf.Decl.Recv.List {
+				for _, nm := range fl.Names {
+					if o := cf.Info().Defs[nm]; o != nil {
+						if a := b.Term(sel.X); a != nil {
+							sub[o] = a
+						}
+					}
+				}
+			}
+		}
+	}
+	var out []*BFact
+	for _, f := range facts {
+		if f.Kind != 'c' {
+			continue
+		}
+		l, ok1 := substTerm(f.L, sub)
+		r, ok2 := substTerm(f.R, sub)
+		if ok1 && ok2 {
+			out = append(out, cmpFact(l, f.Op, r, fmt.Sprintf("%s is %v (%s)", b.F.Str(call), val, b.F.At(call))))
+		}
+	}
+	return out, nil
+}
+
 // ---------------------------------------------------------------------------
 // facts from conditions
 
@@ -926,6 +1078,8 @@ func (b *Bounds) condFacts(cond ast.Expr, val bool) (facts []*BFact, nilErrs []t
 		if x.Op == token.NOT {
 			return b.condFacts(x.X, !val)
 		}
+	case *ast.CallExpr:
+		return b.predicateFacts(x, val)
 	case *ast.BinaryExpr:
 		switch x.Op {
 		case token.LAND:
@@ -1250,6 +1404,11 @@ func (b *Bounds) callEffects(fs FactSet, call *ast.CallExpr) {
 			}
 			return
 		}
+	}
+	// a module function that provably writes nothing through its pointer
+	// receiver / parameters leaves all facts intact
+	if cf := b.F.CalleeFunc(call); cf != nil && cf.Decl != nil && readOnlyFunc(b.P, cf, 0) {
+		return
 	}
 	var touched []types.Type
 	touchesAll := false
@@ -1682,6 +1841,9 @@ func (b *Bounds) flow() {
 	}
 	entry := blocks[0]
 	b.in[entry] = FactSet{}
+	if b.entry != nil {
+		b.in[entry] = b.entry.clone()
+	}
 	work := []*cfg.Block{entry}
 	inWork := map[*cfg.Block]bool{entry: true}
 	iter := 0
@@ -1951,4 +2113,258 @@ func ResetBoundsCache() {
 	defer cacheMu.Unlock()
 	caches = map[*Prog]*progCache{}
 	cacheOrder = nil
+}
+
+var roCache sync.Map // *Func -> bool
+
+// readOnlyFunc: f stores nothing through its receiver or parameters (no
+// assignment rooted in them, parameters are only handed to read-only module
+// functions or to len/cap), and does not write package-level variables.
+func readOnlyFunc(p *Prog, f *Func, depth int) bool {
+	if v, ok := roCache.Load(f); ok {
+		return v.(bool)
+	}
+	if depth > 3 || f.Body == nil {
+		return false
+	}
+	info := f.Info()
+	roots := map[types.Object]bool{}
+	for _, pv := range f.Params() {
+		roots[pv] = true
+	}
+	if f.Decl != nil && f.Decl.Recv != nil {
+		for _, fl := range f.Decl.Recv.List {
+			for _, nm := range fl.Names {
+				if o := info.Defs[nm]; o != nil {
+					roots[o] = true
+				}
+			}
+		}
+	}
+	// aliases: locals assigned from (parts of) a root are roots too
+	for round := 0; round < 2; round++ {
+		ast.Inspect(f.Body, func(n ast.Node) bool {
+			if as, ok := n.(*ast.AssignStmt); ok && len(as.Lhs) == len(as.Rhs) {
+				for i, l := range as.Lhs {
+					if o := rootObj(info, as.Rhs[i]); o != nil && roots[o] {
+						if lo := ObjOf(info, l); lo != nil {
+							switch lo.Type().Underlying().(type) {
+							case *types.Pointer, *types.Slice, *types.Map:
+								roots[lo] = true
+							}
+						}
+					}
+				}
+			}
+			return true
+		})
+	}
+	ok := true
+	isGlobal := func(o types.Object) bool {
+		v, isVar := o.(*types.Var)
+		return isVar && v.Pkg() != nil && v.Parent() == v.Pkg().Scope()
+	}
+	written := func(l ast.Expr) {
+		l = ast.Unparen(l)
+		if id, isId := l.(*ast.Ident); isId {
+			// assigning a local (or a parameter variable itself) is harmless
+			if o := ObjOf(info, id); o != nil && isGlobal(o) {
+				ok = false
+			}
+			return
+		}
+		if o := rootObj(info, l); o == nil || roots[o] || isGlobal(o) {
+			ok = false
+		}
+	}
+	ast.Inspect(f.Body, func(n ast.Node) bool {
+		switch y := n.(type) {
+		case *ast.FuncLit:
+			ok = false
+			return false
+		case *ast.AssignStmt:
+			for _, l := range y.Lhs {
+				written(l)
+			}
+		case *ast.IncDecStmt:
+			written(y.X)
+		case *ast.GoStmt, *ast.DeferStmt, *ast.SendStmt:
+			ok = false
+		case *ast.CallExpr:
+			if tv, isT := info.Types[y.Fun]; isT && tv.IsType() {
+				return true
+			}
+			if bi, isB := Callee(info, y).(*types.Builtin); isB {
+				switch bi.Name() {
+				case "len", "cap", "min", "max":
+				case "copy", "append", "delete", "clear":
+					for i, a := range y.Args {
+						if o := rootObj(info, a); i == 0 && o != nil && (roots[o] || isGlobal(o)) {
+							ok = false
+						}
+					}
+				}
+				return true
+			}
+			passes := false
+			check := func(e ast.Expr) {
+				if o := rootObj(info, e); o != nil && (roots[o] || isGlobal(o)) {
+					if t := info.TypeOf(e); t != nil {
+						switch t.Underlying().(type) {
+						case *types.Pointer, *types.Slice, *types.Map, *types.Interface, *types.Signature:
+							passes = true
+						}
+					}
+				}
+			}
+			for _, a := range y.Args {
+				check(a)
+			}
+			if sel, isSel := ast.Unparen(y.Fun).(*ast.SelectorExpr); isSel {
+				if s, isM := info.Selections[sel]; isM && s.Kind() == types.MethodVal {
+					if o := rootObj(info, sel.X); o != nil && (roots[o] || isGlobal(o)) {
+						passes = true
+					}
+				}
+			}
+			if passes {
+				if name, _, _, isBO := ByteOrderCall(info, y); isBO && !strings.HasPrefix(name, "Put") && !strings.HasPrefix(name, "Append") {
+					return true
+				}
+				cf := f.CalleeFunc(y)
+				if cf == nil || cf.Decl == nil || cf == f || !readOnlyFunc(p, cf, depth+1) {
+					ok = false
+				}
+			}
+		}
+		return true
+	})
+	roCache.Store(f, ok)
+	return ok
+}
+
+// expandLocals rewrites t by replacing variables that have a definition
+// fact (v == R) with their definition, so that the result mentions only
+// variables without one (parameters, receiver, loop counters).
+func expandLocals(t *BTerm, eq map[string]*BFact, depth int) *BTerm {
+	if depth > 6 {
+		return t
+	}
+	if t.K == TVar {
+		if f, ok := eq[t.key]; ok && f.R != nil && !mentions(f.R, t.key) {
+			return expandLocals(f.R, eq, depth+1)
+		}
+		return t
+	}
+	if len(t.Args) == 0 {
+		return t
+	}
+	n := *t
+	n.Args = make([]*BTerm, len(t.Args))
+	changed := false
+	for i, a := range t.Args {
+		n.Args[i] = expandLocals(a, eq, depth+1)
+		if n.Args[i] != a {
+			changed = true
+		}
+	}
+	if !changed {
+		return t
+	}
+	if (n.K == TLen || n.K == TField) && n.Args[0].K != TVar && n.Args[0].K != TField {
+		return t
+	}
+	return mkTerm(&n)
+}
+
+// CalleeAt analyses the module function called at call in the context of
+// this analysis: the facts that hold before the call, rewritten over the
+// callee's receiver and parameters, hold on its entry.  nil if the callee
+// has no body in the module or the chain of contexts is too deep / recursive.
+func (b *Bounds) CalleeAt(call *ast.CallExpr) *Bounds {
+	cf := b.F.CalleeFunc(call)
+	if cf == nil || cf.Decl == nil || cf.Body == nil {
+		return nil
+	}
+	depth := 0
+	for x := b; x != nil; x = x.Caller {
+		if x.F == cf {
+			return nil
+		}
+		depth++
+	}
+	if depth > 3 {
+		return nil
+	}
+	fs, _ := b.FactsBefore(call)
+	entry := FactSet{}
+	if fs != nil {
+		eq := map[string]*BFact{}
+		for _, f := range fs {
+			if f.Kind == 'e' && f.R != nil {
+				eq[f.L.key] = f
+			}
+		}
+		// caller object -> callee term
+		sub := map[types.Object]*BTerm{}
+		bind := func(callerExpr ast.Expr, calleeObj types.Object) {
+			t := b.Term(callerExpr)
+			if t == nil || t.K != TVar || calleeObj == nil {
+				return
+			}
+			bt := basicInt(calleeObj.Type())
+			sub[t.Obj] = mkTerm(&BTerm{K: TVar, Obj: calleeObj, Typ: bt})
+		}
+		for i, p := range cf.Params() {
+			if i < len(call.Args) {
+				bind(call.Args[i], p)
+			}
+		}
+		if cf.Decl.Recv != nil {
+			if sel, ok := ast.Unparen(call.Fun).(*ast.SelectorExpr); ok {
+				for _, fl := range cf.Decl.Recv.List {
+					for _, nm := range fl.Names {
+						bind(sel.X, cf.Info().Defs[nm])
+					}
+				}
+			}
+		}
+		for _, f := range fs.List() {
+			switch f.Kind {
+			case 'c':
+				l, ok1 := substTerm(expandLocals(f.L, eq, 0), sub)
+				r, ok2 := substTerm(expandLocals(f.R, eq, 0), sub)
+				if ok1 && ok2 {
+					nf := cmpFact(l, f.Op, r, f.Src+" [caller "+b.F.Name+"]")
+					entry[nf.key] = nf
+				}
+			case 's':
+				if l, ok := substTerm(expandLocals(f.L, eq, 0), sub); ok {
+					nf := &BFact{Kind: 's', L: l, Set: f.Set, Src: f.Src + " [caller " + b.F.Name + "]"}
+					nf.key = "s:" + l.key
+					entry[nf.key] = nf
+				}
+			}
+		}
+	}
+	cb := &Bounds{P: b.P, F: cf, G: b.P.Graph(cf), info: cf.Info(), sizes: cf.Pkg.TypesSizes,
+		untracked: map[types.Object]bool{}, addrFree: map[types.Object]bool{}, tables: map[types.Object]*ConstTable{},
+		carry: map[*ast.ForStmt][]*BFact{}, before: map[ast.Node]FactSet{}, edgeT: map[*cfg.Block]FactSet{}, in: map[*cfg.Block]FactSet{},
+		summaries: b.summaries, entry: entry, Caller: b, CallSite: call}
+	cb.prepare()
+	cb.flow()
+	cb.obligations()
+	return cb
+}
+
+// ModuleCalls lists the calls in the function's body (not in literals) whose
+// callee is a declared function of the module with a body.
+func (b *Bounds) ModuleCalls() []*ast.CallExpr {
+	var out []*ast.CallExpr
+	for _, call := range b.F.AllCalls(false) {
+		if cf := b.F.CalleeFunc(call); cf != nil && cf.Decl != nil && cf.Body != nil {
+			out = append(out, call)
+		}
+	}
+	return out
 }
